@@ -146,7 +146,7 @@ def impl_assign(ctx, text, ff, dropw, keep, ws, tag="a"):
         return ("EXC", "SystemExit", str(e))
     with open(outp, "rb") as fh:
         data = fh.read().decode("latin-1")
-    return ("OK", data, [(a.serial, a.name) for a in (missed or [])], bm)
+    return ("OK", data, [(a.serial, a.name) for a in (missed or [])], bm, {id(a) for a in (missed or [])})
 
 
 def model_term(case, tbl):
@@ -395,7 +395,7 @@ def input_residues(case, tab):
         kept = [d for d in kept if d["resn"] not in ("HOH", "WAT")]
     chains = {}
     for d in kept:
-        rl = chains.setdefault(d["chain"], [])
+        rl = chains.setdefault(d["segchain"], [])  # a blank chain id is the chain of its TER segment
         if not rl or rl[-1][0] != (d["seq"], d["ic"]):
             rl.append(((d["seq"], d["ic"]), d["resn"], []))
         rl[-1][2].append(d)
@@ -466,38 +466,60 @@ def search_case(ctx, case, real, tab, ct, dat):
     base = {"site": "main.main_driver --assign-only", "ff": ff}
     cs = {k: v for k, v in case.items()}
     cs["mode"] = "assign-search"
-    # chains of the biomolecule: residue objects in order, by the real run (only positions and names are used)
+    # PAIRING: by position, never by (chain, resSeq, iCode) - chains may be blank and numbering may
+    # restart.  The written lines are, in order, the atoms of biomolecule.residues that are not in
+    # the missed list (print_biomolecule_atoms(matched_atoms)); name and coordinates must agree.
     nontrivial = False
-    bychain = {}
-    for res in bm.residues:
-        bychain.setdefault(res.chain_id, []).append(res)
-    written = {}
-    ck = (lambda c: c) if keep else (lambda c: "")
-    if not keep and len({(r.res_seq, r.ins_code) for r in bm.residues}) != len(bm.residues):
-        ctx.count("search:skipped(no chain column and residue numbers repeat)")
-        return
     for a in out:
         if a.get("unreadable"):
             ctx.count("search:unreadable-line")
             return
-        written.setdefault((a["chain"], a["seq"], a["ic"]), []).append(a)
     missed = {(s, n) for s, n in real[2]}
+    missed_ids = real[4]
+    matched = [(res, at) for res in bm.residues for at in res.atoms if id(at) not in missed_ids]
+    r3f = e2e_clean.r3f
+    if len(matched) != len(out) or any(
+        at.name != o["name"] or (r3f(at.x), r3f(at.y), r3f(at.z)) != (o["x"], o["y"], o["z"]) for (_, at), o in zip(matched, out)
+    ):
+        ctx.fail(dict(base, field="record", condition="written-lines-are-not-the-assigned-atoms-in-order"),
+                 f"{ff}: {len(out)} written lines vs {len(matched)} atoms outside the missed list, or names/coordinates differ in order", cs)
+        return
+    lines_of = {}
+    for (res, at), o in zip(matched, out):
+        lines_of.setdefault(id(res), []).append(o)
+    # names the INPUT lists per residue (nothing may be deleted in this mode): input records are tied to
+    # residue objects by identical coordinates; a record without a partner belongs to the residue of
+    # its consecutive run (same chain, resSeq, iCode columns)
     in_names = {}
     sl0 = e2e_clean.slicer(case["text"])
     if sl0 is not None:
-        for d in sl0[0]:
-            in_names.setdefault((d["seq"], d["ic"]), set()).add(d["name"])
-    for chain, rl in bychain.items():
+        by_xyz = {}
+        for res in bm.residues:
+            for at in res.atoms:
+                by_xyz.setdefault((at.x, at.y, at.z), res)
+        run, run_key = [], None
+        recs = list(sl0[1]) + [None]
+        for d in recs:
+            k3 = None if d is None else (d["chain"], d["seq"], d["ic"])
+            if k3 != run_key or d is None:
+                owner = next((by_xyz[(x["x"], x["y"], x["z"])] for x in run if (x["x"], x["y"], x["z"]) in by_xyz), None)
+                if owner is not None:
+                    in_names.setdefault(id(owner), set()).update(x["name"] for x in run)
+                run, run_key = [], k3
+            if d is not None:
+                run.append(d)
+    for chain in bm.chains:
+        rl = list(chain.residues)
         poly = [r for r in rl if tab.get(r.name, ("KGeneric",))[0] in ("KAmino", "KNucleic")]
         for res in rl:
-            # the state is a function of the INPUT atoms (nothing may be deleted in this mode)
-            names = {a.name for a in res.atoms} | in_names.get((res.res_seq, res.ins_code), set())
+            names = {a.name for a in res.atoms} | in_names.get(id(res), set())
             first = bool(poly) and res is rl[0] and res is poly[0]
             last = bool(poly) and res is poly[-1] and not first
             exp = expected_state(ct, tab, res.name, names, first, last)
             if exp is None:
                 continue
-            for a in written.get((ck(res.chain_id), res.res_seq, res.ins_code), []):
+            mine = lines_of.get(id(res), [])
+            for a in mine:
                 key = (exp, a["name"])
                 if key not in rows:
                     ctx.count("search:not-a-direct-DAT-row")
@@ -507,11 +529,11 @@ def search_case(ctx, case, real, tab, ct, dat):
                 want = ("%.4f" % float(rows[key][0]), "%.4f" % float(rows[key][1]))
                 if (a["q"], a["r"]) != want:
                     ctx.fail(dict(base, field="charge/radius", condition="differs-from-DAT-row"),
-                             f"{ff}: atom {a['name']} of {res.name} {res.res_seq} (state {exp}) written with {a['q']}/{a['r']}, DAT row says {want[0]}/{want[1]}", cs)
+                             f"{ff}: atom {a['name']} of {res.name} {res.chain_id!r}{res.res_seq} (state {exp}, output serial {a['serial']}) written with {a['q']}/{a['r']}, DAT row says {want[0]}/{want[1]}", cs)
                     return
-            wn = {a["name"] for a in written.get((ck(res.chain_id), res.res_seq, res.ins_code), [])}
+            wn = {a["name"] for a in mine}
             for at in res.atoms:
-                if at.name not in wn and (exp, at.name) in rows and len(rl) > 0:
+                if at.name not in wn and (exp, at.name) in rows:
                     ctx.fail(dict(base, field="record", condition="parameterised-atom-not-written"),
                              f"{ff}: atom {at.name} of {res.name} {res.res_seq} has a DAT row under {exp} but is not in the output", cs)
                     return
@@ -522,17 +544,24 @@ def search_case(ctx, case, real, tab, ct, dat):
         kept = sl[0]
         if case["dropw"]:
             kept = [d for d in kept if d["resn"] not in ("HOH", "WAT")]
-        wkeys = {(a["seq"], a["ic"], a["name"]) for a in out}
+        wkeys = {(a["x"], a["y"], a["z"], a["name"]) for a in out}
         mserials = {s_ for s_, _ in real[2]}
         talts = {}
         for nme in ("NTERM", "CTERM"):
             talts.update(e2e_clean.patch_tables()[nme][1])
         rm5 = set(e2e_clean.patch_tables()["5TERM"][0])
+        seen_canon = {}
         for d in kept:
             alts = tab.get(d["resn"], ("", {}))[1]
             n1 = alts.get(d["name"], d["name"])
             cands = {d["name"], n1, talts.get(n1, n1)}
-            if any((d["seq"], d["ic"], c) in wkeys for c in cands) or d["serial"] in mserials:
+            # an alias spelling of an atom the residue already lists is the same atom (first listed wins)
+            ckey = (d["segchain"], d["seq"], d["ic"], d["resn"], talts.get(n1, n1))
+            if ckey in seen_canon and seen_canon[ckey] != d["name"]:
+                ctx.count("search:alias-duplicate-of-an-earlier-record(same atom)")
+                continue
+            seen_canon.setdefault(ckey, d["name"])
+            if any((r3f(d["x"]), r3f(d["y"]), r3f(d["z"]), c) in wkeys for c in cands) or d["serial"] in mserials:
                 continue
             if d["name"] in rm5 and tab.get(d["resn"], ("",))[0] == "KNucleic":
                 ctx.count("design-deviation:5prime-phosphate-removed-by-5TERM-patch")
